@@ -1623,3 +1623,7 @@ impl Display for UdtSerializationErrorKind {
 #[cfg(test)]
 #[path = "value_tests.rs"]
 pub(crate) mod tests;
+
+// Verification hook (inert unless built by `cargo kani`, which sets --cfg kani).
+#[cfg(kani)]
+mod verif_kani;
